@@ -32,11 +32,11 @@ ENV = {'XLA_FLAGS': '--xla_force_host_platform_device_count=8'}
 MIN_HITS = {
     'quick': {'mon:fold': 400, 'mon:ids': 200, 'mon:steps': 200, 'mon:sanitize': 200, 'backend:jit': 40, 'backend:debug': 40,
               'backend:pmap': 100, 'pmap-padding-client': 30, 'pmap-padding-batch': 30, 'nan-on-padding-program': 20,
-              'mon:thread': 5000, 'thread-alternations': 50, 'zero-batches-client': 20, 'mon:restore': 500, 'client-id-None': 5, 'reuse:jit': 30, 'reuse:pmap': 30},
+              'mon:thread': 5000, 'thread-alternations': 50, 'zero-batches-client': 20, 'mon:restore': 500, 'client-id-None': 5, 'reuse:jit': 30, 'reuse:pmap': 30, 'hit:many-clients-call': 12, 'hit:x64-scoped-call': 40},
     'thorough': {'mon:fold': 8000, 'mon:ids': 4000, 'mon:steps': 4000, 'mon:sanitize': 4000, 'backend:jit': 400,
                  'backend:debug': 400, 'backend:pmap': 3000, 'pmap-padding-client': 800, 'pmap-padding-batch': 800,
                  'nan-on-padding-program': 200, 'mon:thread': 100000, 'thread-alternations': 500, 'zero-batches-client': 300,
-                 'mon:restore': 10000, 'client-id-None': 100, 'reuse:jit': 400, 'reuse:pmap': 400},
+                 'mon:restore': 10000, 'client-id-None': 100, 'reuse:jit': 400, 'reuse:pmap': 400, 'hit:many-clients-call': 70, 'hit:x64-scoped-call': 400},
 }
 TECHNIQUE = 'runtime monitoring: eager sequential-fold oracle vs jit/debug/pmap(1..8 devices) + donation sanitizer; shadow-stack monitor over multi-threaded backend-selection schedules'
 LEVEL_TEXT = ('Each generated client program is executed by all three real backends (pmap on every device count 1..8 in thorough) and '
@@ -439,6 +439,116 @@ def run_schedule(ctx, fedjax, fec, rng, n_threads, n_ops):
   ctx.case_done(('schedule', n_threads, n_ops, ctx.cur_case), sample=wit, klass='schedule')
 
 
+def run_many(ctx, jax, jnp, fedjax, fec, rng, case_no):
+  """Thousands of clients in ONE call (any internal grouping of the client stream): one result per id, each the fold of its own
+  batches. Cheap program; oracle in NumPy."""
+  K = int([1023, 1024, 1025, 1026, 2049, 2500, 4100][case_no % 7])
+  nb = rng.randint(0, 3, size=K)
+  xs = [rng.randint(0, 100, size=(int(nb[i]), 2)).astype(np.float32) for i in range(K)]
+  a = rng.randint(0, 50, size=K).astype(np.float32)
+  ids = [b'm%05d' % i for i in range(K)]
+  exp = {ids[i]: float(a[i] + xs[i].sum()) for i in range(K)}
+
+  def init(shared, cin):
+    return cin['a'] + shared['z']
+
+  def step(state, batch):
+    return state + jnp.sum(batch['x'])
+
+  def final(shared, state):
+    return state
+
+  wsr = bool(case_no % 2)
+  if wsr:
+    step_r = lambda state, batch: (step(state, batch), jnp.sum(batch['x']))
+  which = [('jit', lambda: fec.ForEachClientJitBackend()), ('pmap', lambda: fec.ForEachClientPmapBackend(jax.local_devices()[:int(rng.randint(1, 9))])),
+           ('debug', lambda: fec.ForEachClientDebugBackend())]
+  for name, mk in which[:2] if K > 2100 else which:
+    wit = {'family': 'manyclients', 'clients': K, 'backend': name, 'with_step_result': wsr}
+    clients = [(ids[i], [{'x': xs[i][j]} for j in range(int(nb[i]))], {'a': a[i]}) for i in range(K)]
+
+    def call():
+      with fedjax.for_each_client_backend(mk()):
+        f = fedjax.for_each_client(init, step_r if wsr else step, final, with_step_result=wsr)
+      return list(f({'z': np.float32(0)}, clients if case_no % 3 else iter(clients)))
+
+    r = ctx.call(f'for_each_client[{name}]', call, witness=wit)
+    if not r.ok:
+      continue
+    ctx.count('hit:many-clients-call')
+    got_ids = [t[0] for t in r.value]
+    missing = sorted(set(ids) - set(got_ids))
+    ctx.check(len(got_ids) == K and not missing and len(set(got_ids)) == K, f'ids/multiset-{name}',
+              f'{len(got_ids)} results for {K} clients; missing input positions {[ids.index(m) for m in missing[:6]]}', wit)
+    bad = [c for c, out, *rest in r.value if c in exp and abs(float(np.asarray(out)) - exp[c]) > 1e-3 * (1 + abs(exp[c]))]
+    ctx.check(not bad, f'fold/output-{name}', f'{len(bad)} of {K} client outputs differ from the fold of their own batches '
+              f'(first: {bad[:3]})', wit)
+    if wsr:
+      short = [c for c, out, res in r.value if c in exp and len(res) != int(nb[ids.index(c)])]
+      ctx.check(not short, f'steps/count-{name}', f'{len(short)} clients have a wrong number of step results', wit)
+  ctx.case_done(('manyclients', K, wsr), sample={'family': 'manyclients', 'clients': K}, klass=['manyclients'])
+
+
+def run_x64_scoped(ctx, jax, jnp, fedjax, fec, rng, case_no):
+  """64-bit mode switched on the scoped way (`with jax.enable_x64(True)`) around the whole computation, with data that does
+  not survive narrowing (int64 ids above 2**33, float64 timestamps): every backend equals the NumPy int64/float64 fold."""
+  if not hasattr(jax, 'enable_x64'):
+    from jax.experimental import enable_x64 as _enable
+  else:
+    _enable = jax.enable_x64
+  K = int(rng.randint(1, 10))
+  clients_np = []
+  for i in range(K):
+    nb = int(rng.randint(0, 4))
+    batches = [{'ids': rng.randint(2**33, 2**40, size=[5], dtype=np.int64), 't': 1.7e9 + rng.uniform(0, 50, size=[5])} for _ in range(nb)]
+    clients_np.append((b'x%02d' % i, batches, {'start': np.int64(2**35 + i), 'scale': np.float64(1 + 0.25 * i)}))
+  shared_np = {'offset': np.int64(2**34 + 7), 't0': np.float64(1.7e9 + 0.125)}
+
+  def init(shared, cin):
+    return {'id_sum': cin['start'] + shared['offset'], 't_last': shared['t0'] * jnp.ones_like(cin['scale']), 'scale': cin['scale']}
+
+  def step(state, batch):
+    return {'id_sum': state['id_sum'] + jnp.sum(batch['ids']), 't_last': jnp.maximum(state['t_last'], jnp.max(batch['t'])),
+            'scale': state['scale']}
+
+  def final(shared, state):
+    return {'id_sum': state['id_sum'], 'elapsed': (state['t_last'] - shared['t0']) * state['scale']}
+
+  exp = {}
+  for cid, batches, cin in clients_np:
+    s, t = int(cin['start']) + int(shared_np['offset']), float(shared_np['t0'])
+    for b in batches:
+      s += int(b['ids'].sum())
+      t = max(t, float(b['t'].max()))
+    exp[cid] = (s, (t - float(shared_np['t0'])) * float(cin['scale']))
+  backends = [('jit', fec.ForEachClientJitBackend), ('debug', fec.ForEachClientDebugBackend)]
+  for nd in sorted(set(rng.choice([1, 2, 3, 4, 8], size=2, replace=False).tolist())):
+    backends.append((f'pmap{nd}', lambda nd=nd: fec.ForEachClientPmapBackend(jax.local_devices()[:nd])))
+  for name, mk in backends:
+    fam = name.rstrip('0123456789')
+    wit = {'family': 'x64-scoped', 'backend': name, 'clients': K, 'batch_counts': [len(b) for _, b, _ in clients_np]}
+
+    def call():
+      with _enable(True):
+        with fedjax.for_each_client_backend(mk()):
+          f = fedjax.for_each_client(init, step, final)
+        return [(c, jax.tree_util.tree_map(np.asarray, o)) for c, o in f(shared_np, clients_np)]
+
+    r = ctx.call(f'for_each_client[{fam}]', call, witness=wit)
+    if not r.ok:
+      continue
+    ctx.count('hit:x64-scoped-call')
+    got = dict(r.value)
+    ctx.check(sorted(got) == sorted(exp), f'ids/multiset-{fam}', 'results do not cover every client exactly once', wit)
+    for cid, (s, e) in exp.items():
+      if cid in got:
+        o = got[cid]
+        ok = int(o['id_sum']) == s and o['id_sum'].dtype == np.int64 and abs(float(o['elapsed']) - e) <= 1e-9 * (1 + abs(e))
+        ctx.check(ok, f'fold/output-{fam}', f"client {cid!r} under `with jax.enable_x64(True)`: id_sum {int(o['id_sum'])} "
+                  f"({o['id_sum'].dtype}) elapsed {float(o['elapsed'])!r}; the int64/float64 fold gives {s} / {e!r}", {**wit, 'client': cid})
+  ctx.case_done(('x64-scoped', K, case_no), sample={'family': 'x64-scoped', 'clients': K}, klass=['x64-scoped'])
+
+
 def run(ctx):
   import jax
   import jax.numpy as jnp
@@ -453,5 +563,9 @@ def run(ctx):
     else:
       nds = [1, 2, 3, 4, 5, 6, 7, 8]
     run_program(ctx, jax, jnp, fedjax, fec, rng, nds)
+  for cid, rng in ctx.cases('many', 8 if ctx.quick else 42):
+    run_many(ctx, jax, jnp, fedjax, fec, rng, int(cid.split('/')[1]))
+  for cid, rng in ctx.cases('x64scoped', 16 if ctx.quick else 160):
+    run_x64_scoped(ctx, jax, jnp, fedjax, fec, rng, int(cid.split('/')[1]))
   for cid, rng in ctx.cases('sched', 8 if ctx.quick else 28):
     run_schedule(ctx, fedjax, fec, rng, 8 if ctx.quick else 16, 2000 if ctx.quick else 20000)
